@@ -17,7 +17,7 @@ KINDS = ["timed_window", "timed_window_unique", "partition_timeout", "timed_wind
 
 
 def run(ctx):
-    ctx.audit(extra_modules=[m for m in lean_extra() if "AsyncWindows" in m])
+    ctx.audit(extra_modules=lean_extra("C08"))
     n = 200 if not ctx.thorough() else 6000
     A.sweep(ctx, n, KINDS, ["windows"], SIGS, allow_zip=False)
     for m in corr_modules():
@@ -31,7 +31,7 @@ def run(ctx):
 
 
 def replay(ctx, data):
-    ctx.audit(extra_modules=[m for m in lean_extra() if "AsyncWindows" in m])
+    ctx.audit(extra_modules=lean_extra("C08"))
     case = data["case"]
     ac.evaluate(ctx, case, ac.rerun(case), ["windows"], SIGS)
     ctx.coverage["rule"] = "replay of one recorded case"
